@@ -10,7 +10,7 @@ import (
 )
 
 func init() {
-	Explanations["C05"] = "Decides structural necessary conditions of 'the pool is a valid continuation of the tip' in chain.Manager and the miner: (R1) every exported Manager method that reads the pool's lists, index map or weight — directly, in a closure, or through an unexported helper that does — calls the revalidation step after locking and before the first such read; (R2) every success return of the tip walker passes the store that discards the pool's mid-state; (R3) in the apply step Store.ApplyBlock(cs, cau) is followed on every path by the pool's apply update with the same two values, and likewise for revert; (R4) every registration of a transaction in the pool's index map is dominated by the success edge of consensus.Validate(V2)Transaction against the pool's mid-state for that transaction (directly, or through a staging slice filled only on that edge) and each such validation success is followed by the matching mid-state Apply; (R5) in MineBlock every append to the block's transaction lists lies on the passing side of the block-weight test and the loop leaves (break/return) on the failing side, so a prefix is taken; (R6) the proof updater used when blocks are applied/reverted under the pool excludes the ephemeral sentinel before range-checking a leaf index, so a pooled child of a pooled parent is not dropped by an unrelated block; (R7) every pointer the proof updater passes to its per-element closure points into the transaction it was given (through the parameter and index expressions) or through a pointer-typed value — never at a by-value loop copy, whose update would be discarded. (R8) in the pool rebuild every `weight +=` is dominated by a reset of the weight to zero with no other adjustment between them, so the figure the eviction test reads is the weight of the transactions actually pooled. (R9) the inverse-effect table of C02.R1: the element store the v1 pool is validated against is restored exactly by a revert; (R10) every contribution to the pool's recorded weight (directly or through a local accumulator) is paired, within its loop iteration, with the store of that transaction into a pool list or the local list that becomes one. NOT decided: that moved proofs verify, that a mined block is accepted, retention until confirmation."
+	Explanations["C05"] = "Decides structural necessary conditions of 'the pool is a valid continuation of the tip' in chain.Manager and the miner: (R1) every exported Manager method that reads the pool's lists, index map or weight — directly, in a closure, or through an unexported helper that does — calls the revalidation step after locking and before the first such read; (R2) every success return of the tip walker passes the store that discards the pool's mid-state; (R3) in the apply step Store.ApplyBlock(cs, cau) is followed on every path by the pool's apply update with the same two values, and likewise for revert; (R4) every registration of a transaction in the pool's index map is dominated by the success edge of consensus.Validate(V2)Transaction against the pool's mid-state for that transaction (directly, or through a staging slice filled only on that edge) and each such validation success is followed by the matching mid-state Apply; (R5) in MineBlock every append to the block's transaction lists lies on the passing side of the block-weight test and the loop leaves (break/return) on the failing side, so a prefix is taken; (R6) the proof updater used when blocks are applied/reverted under the pool excludes the ephemeral sentinel before range-checking a leaf index, so a pooled child of a pooled parent is not dropped by an unrelated block; (R7) every pointer the proof updater passes to its per-element closure points into the transaction it was given (through the parameter and index expressions) or through a pointer-typed value — never at a by-value loop copy, whose update would be discarded. (R8) in the pool rebuild every `weight +=` is dominated by a reset of the weight to zero with no other adjustment between them, so the figure the eviction test reads is the weight of the transactions actually pooled. (R9) the inverse-effect table of C02.R1: the element store the v1 pool is validated against is restored exactly by a revert; (R10) every contribution to the pool's recorded weight (directly or through a local accumulator) is paired, within its loop iteration, with the store of that transaction into a pool list or the local list that becomes one. (R11) the copy-out check of C14.R3. NOT decided: that moved proofs verify, that a mined block is accepted, retention until confirmation."
 
 	register(&Rule{ID: "C05.R1", Prop: "C05", Floor: 10, Doc: "revalidate-before-read in every exported pool reader", Run: c05r1})
 	register(&Rule{ID: "C05.R2", Prop: "C05", Floor: 1, Doc: "tip change discards the pool mid-state", Run: c05r2})
